@@ -5,6 +5,7 @@ from .solcommon import *
 def run(tier, seed, replay=None):
     rep = Report("C01", tier, seed)
     sun_selfcheck(rep)
+    calendar_and_ra_models(rep)
     args = ["--stride", 1] if tier == "thorough" else ["--years", 50, "--random", 3000]
     info, events = validate(rep, "C01", "c01", args, heap="10g" if tier == "thorough" else "6g")
     rep.distinct_nontrivial = len({(e["site"]["lat"], e["site"]["lon"], e["site"]["gmt"], e["date"]["dn"]) for e in events})
